@@ -1039,7 +1039,11 @@ func (p *partition) handleReplicationRequest(msg *nats.Msg) {
 	}
 	replicator, ok := p.replicators[req.ReplicaID]
 	if !ok {
-		panic(fmt.Sprintf("No replicator for partition %s and replica %s", p, req.ReplicaID))
+		// The leader has no replicator for itself, so this is a request that
+		// carries the leader's own ID.
+		p.srv.logger.Warnf("Received replication request for partition %s from replica %s "+
+			"which is not replicated to", p, req.ReplicaID)
+		return
 	}
 	replicator.request(replicationRequest{req, msg, received})
 }
